@@ -30,7 +30,7 @@ def main():
             rows.append((sd, {"error": "patch does not apply"}))
             continue
         res = {}
-        for c in [prop] + ALSO.get(prop, []):
+        for c in [prop] + ([] if os.environ.get('ONLY_OWN') else ALSO.get(prop, [])):
             out = sh("cd %s && VERIF_REPO=%s timeout 1800 ./check %s" % (V, W, c)).stdout
             v = [l for l in out.split("\n") if l.startswith("VIOLATION")]
             if not v:
@@ -42,7 +42,7 @@ def main():
         sh("git -C %s checkout -q -- .; git -C %s clean -fdq -e Cargo.lock" % (W, W))
         mp = os.path.join(d, "meta.json")
         m = json.load(open(mp))
-        m["detected_by"] = res
+        m["detected_by"] = dict(m.get("detected_by", {}), **res) if os.environ.get('ONLY_OWN') else res
         m["detection_run"] = "tools/seedmatrix.py: patch applied to scratch worktree %s (HEAD %s), `VERIF_REPO=%s ./check Cxx` (quick tier, seed 1)" % (W, head[:7], W)
         json.dump(m, open(mp, "w"), indent=1)
         rows.append((sd, res))
